@@ -101,8 +101,12 @@ MeanExact(kind, vals) ==
   IN IF kind = "int" THEN SCanon(<<s[1], RoundMagHE(q, frac)>>)
      ELSE SCanon(<<s[1], q>>)
 \* float kind: the case must lie in the domain where the mean is exact
+\* the exact mean is a float32: divisible by the count, and at most 24 SIGNIFICANT
+\* bits (trailing zero bits do not count: few-bit values at the top of the range)
+SigLen(b) == IF b = << >> THEN 0
+             ELSE Len(b) - (CHOOSE i \in 1..Len(b) : b[i] = 1 /\ \A j \in 1..(i - 1) : b[j] = 0) + 1
 MeanIsExact(vals) ==
-  LET s == SSum(vals) IN Low(s[2], Log2(Len(vals))) = << >> /\ Len(s[2]) <= 24 + Log2(Len(vals))
+  LET s == SSum(vals) IN Low(s[2], Log2(Len(vals))) = << >> /\ SigLen(s[2]) <= 24
 
 BlockMean(c, p) == MeanExact(c.kind, MeanContrib(c, p))
 Majority(c, p) ==
